@@ -1406,6 +1406,10 @@ func (gqm *GroupQuotaManager) doUpdateOneGroupMinQuotaNoLock(quotaName string, n
 			return
 		}
 		parentRuntimeCalculator.updateOneGroupMinQuota(curQuotaInfo)
+		// the request of a quota that does not lend follows its min: the calculator must see it too, not only the parents
+		if parentRuntimeCalculator.needUpdateOneGroupRequest(curQuotaInfo) {
+			parentRuntimeCalculator.updateOneGroupRequest(curQuotaInfo)
+		}
 
 		newSubLimitReq := curQuotaInfo.getLimitRequestNoLock()
 		deltaRequest := quotav1.Subtract(newSubLimitReq, oldSubLimitReq)
